@@ -196,10 +196,14 @@ def gen_cases(rng, tier):
                 ops.append(("be", rng.next() & (2**64 - 1) if rng.chance(1, 2) else rng.below(2**(ln or 1)), ln))
             else:
                 ops.append(("by", rng.bytes(rng.below(4))))
-        hl = " ".join("b%d" % o[1] if o[0] == "b" else ("be:%d:%d" % (o[1], o[2]) if o[0] == "be" else "by:" + hexs(o[1]))
-                      for o in ops)
-        ce = "[" + "; ".join("WBit %d" % o[1] if o[0] == "b" else ("WBe %d %d" % (o[1], o[2]) if o[0] == "be" else
-                                                                   "WBytes " + coq_list(o[1])) for o in ops) + "]"
+            # flush_all / io::Write::flush in the middle of the stream (every second sequence)
+            if _ % 2 and rng.chance(1, 4):
+                ops.append(("fl",) if rng.chance(2, 3) else ("fs",))
+        hl = " ".join({"b": lambda o: "b%d" % o[1], "be": lambda o: "be:%d:%d" % (o[1], o[2]),
+                       "by": lambda o: "by:" + hexs(o[1]), "fl": lambda o: "fl", "fs": lambda o: "fs"}[o[0]](o) for o in ops)
+        ce = "[" + "; ".join({"b": lambda o: "WBit %d" % o[1], "be": lambda o: "WBe %d %d" % (o[1], o[2]),
+                              "by": lambda o: "WBytes " + coq_list(o[1]), "fl": lambda o: "WFlush",
+                              "fs": lambda o: "WSync"}[o[0]](o) for o in ops) + "]"
         add("wr", hl, "run_wr %s" % ce, {"ops": ops})
 
     # windows: every (s, e) over 3-byte slices, two byte patterns; random larger
@@ -285,15 +289,22 @@ def prop_check(c, r):
                     % (m["s"], m["e"], hexs(m["bytes"]), [o[0] for o in m["ops"]], r, exp))
     elif c.kind == "wr":
         bits = []
-        bad = False
+        done = []       # bytes written out by a flush_all in the middle of the stream
+        total = 0
         for o in m["ops"]:
             if o[0] == "b":
                 bits.append(o[1])
             elif o[0] == "be":
                 bits += [(o[1] >> i) & 1 for i in range(o[2] - 1, -1, -1)]
-            else:
+            elif o[0] == "by":
                 bits += bits_of_bytes(o[1])
-        exp = [len(bits), len(bits)] + pack_py(bits)
+            elif o[0] == "fl":
+                # the written bits go out padded with zeros to a whole byte; the counter does not count padding
+                total += len(bits)
+                done += pack_py(bits)
+                bits = []
+        total += len(bits)
+        exp = [total, total] + done + pack_py(bits)
         if r != exp:
             return ("writer", "writer ops: got %s, expected %s" % (r, exp))
     elif c.kind == "win":
